@@ -4,6 +4,7 @@ import (
 	"encoding/json"
 	"flag"
 	"fmt"
+	"go/types"
 	"golang.org/x/tools/go/ssa"
 	"os"
 	"path/filepath"
@@ -150,8 +151,17 @@ func main() {
 	// every uncontracted function and prints those that verify; /verif/contracts/sweep.list is
 	// the committed list that `check C01` re-verifies on every run.
 	sweepCon := func(sel string) *Contract {
-		return &Contract{Sel: sel, File: "sweep", Props: []string{"C01"}, Loops: map[int]*LoopSpec{}, HasPanics: true,
+		c := &Contract{Sel: sel, File: "sweep", Props: []string{"C01"}, Loops: map[int]*LoopSpec{}, HasPanics: true,
 			Panics: []string{"values.TypeError", "expressions.InterpreterError", "expressions.UndefinedFilter", "expressions.FilterError"}}
+		// the one assumption of the sweep: a method with a pointer receiver is called on a
+		// non-nil receiver (a nil receiver is a caller bug, not something a template or a binding
+		// can provoke)
+		if fn := w.fns[sel]; fn != nil && fn.Signature.Recv() != nil && len(fn.Params) > 0 {
+			if _, isPtr := types.Unalias(fn.Params[0].Type()).Underlying().(*types.Pointer); isPtr {
+				c.Requires = append(c.Requires, Clause{Label: "receiver", Text: fn.Params[0].Name() + " != nil", File: "sweep"})
+			}
+		}
+		return c
 	}
 	if cmd == "sweep" {
 		without, _ := w.uncontracted()
@@ -167,6 +177,10 @@ func main() {
 		}
 		var all []*Obligation
 		for _, r := range res {
+			if len(r.Obs) > 400 {
+				r.SpecErrors = append(r.SpecErrors, fmt.Sprintf("%d obligations: too large for the zero-annotation sweep", len(r.Obs)))
+				continue
+			}
 			all = append(all, r.Obs...)
 		}
 		outDir := filepath.Join(*verif, "out", "smt", "sweep")
